@@ -280,15 +280,14 @@ func (r Stack) SetLessFunc(function ...LessFunc) Stack {
 }
 
 func (r *stack) setLessFunc(function ...LessFunc) {
+	// no closure, or a nil one: Less falls back to the
+	// package-default ordering, which must see the
+	// receiver as it is at the time of each call (a
+	// bound r.defaultLesser would keep comparing the
+	// slices present now).
 	var funk LessFunc
 	if len(function) > 0 {
-		if function[0] == nil {
-			funk = r.defaultLesser
-		} else {
-			funk = function[0]
-		}
-	} else {
-		funk = r.defaultLesser
+		funk = function[0]
 	}
 
 	cfg, _ := r.config()
